@@ -52,9 +52,12 @@ func replayableType(t types.Type) bool {
 	return false
 }
 
-func (cr *checkRun) tryReplay(o *Obligation, vc *VC) *replayResult {
+func (cr *checkRun) tryReplayModel(o *Obligation, vc *VC) *replayResult {
 	fn := vc.targetFn
 	if fn == nil || (o.Status != "failed" && !(o.Status == "unknown" && o.candidate != "")) || o.Query == "" || fn.Pkg == nil || !inRepo(fn.Pkg.Pkg) {
+		return nil
+	}
+	if !replayEligible(o, vc) {
 		return nil
 	}
 	if o.Kind != "post" && o.Kind != "safety" {
@@ -283,12 +286,12 @@ func TestGovcReplay(t *testing.T) {
 	// sanity: the observed run must itself be a run the generated conditions admit (inputs and observed
 	// results pinned, no goal). If it is not, the generator's semantics and the real code disagree, and an
 	// "unsat" below would say nothing about the clause.
-	sanityQ := query[:i] + strings.Join(pins, "\n") + "\n(check-sat)\n"
+	sanityQ := dropQuantified(query[:i]) + strings.Join(pins, "\n") + "\n(check-sat)\n"
 	sanityQ = strings.Replace(sanityQ, "(declare-fun mulI (Int Int) Int)", "(define-fun mulI ((a Int) (b Int)) Int (* a b))", 1)
 	sf := filepath.Join(dir, "sanity.smt2")
 	os.WriteFile(sf, []byte(sanityQ), 0o644)
 	for _, s := range solvers {
-		ans, _, _ := runSolver(s, sf, 20)
+		ans, _, _ := runSolver(s, sf, 5)
 		if ans == "unsat" {
 			res.Note = "no-failing-input-found: ENGINE-MISMATCH - the results the real function returned on the model's input are not a run the verification conditions admit (" + s.name + "); the generator's model of this function or a trusted spec it uses is wrong"
 			return res
@@ -466,4 +469,243 @@ func smtStringValue(v string) (string, bool) {
 	return b.String(), true
 }
 
-var _ = ssa.BuilderMode(0)
+func replayEligible(o *Obligation, vc *VC) bool {
+	fn := vc.targetFn
+	if fn == nil || o.Query == "" || fn.Pkg == nil || !inRepo(fn.Pkg.Pkg) {
+		return false
+	}
+	if o.Kind != "post" && o.Kind != "safety" {
+		return false
+	}
+	if o.Kind == "safety" && !strings.HasPrefix(o.Name, shortFn(fn)+"#") {
+		return false
+	}
+	if fn.Parent() != nil || fn.TypeParams().Len() > 0 || len(fn.TypeArgs()) > 0 || fn.Signature.Variadic() {
+		return false
+	}
+	for _, p := range fn.Params {
+		if !replayableType(p.Type()) {
+			return false
+		}
+	}
+	return len(vc.paramVals) == len(fn.Params)
+}
+
+// tryReplay: first the solver's own model; when that does not reproduce on the real code (or there is no
+// model: unknown/timeout), a bounded search over generated inputs (conform.go: boundary integers, a pool of
+// strings and structured string tuples, the constants of the function) for one on which the real function
+// contradicts the clause. A searched input is confirmed exactly like a model input.
+func (cr *checkRun) tryReplay(o *Obligation, vc *VC) *replayResult {
+	res := cr.tryReplayModel(o, vc)
+	if res != nil && res.Confirmed {
+		return res
+	}
+	if !replayEligible(o, vc) || (o.Status != "failed" && o.Status != "unknown" && o.Status != "timeout") {
+		return res
+	}
+	sr := cr.searchReplay(o, vc)
+	if sr != nil && sr.Confirmed {
+		return sr
+	}
+	if res == nil {
+		return sr
+	}
+	if sr != nil && sr.Note != "" {
+		res.Note += "; " + sr.Note
+	}
+	return res
+}
+
+type batchRun struct {
+	budget  float64 // seconds of solver time left for the searches of this function
+	tuples  [][]inVal
+	obs     []map[string]interface{}
+	imports map[string]string
+	err     error
+}
+
+// constantsOf: string and integer constants of a function and of the in-repo functions it calls directly
+func constantsOf(fn *ssa.Function, depth int, strs map[string]bool, ints map[string]*big.Int) {
+	for _, b := range fn.Blocks {
+		for _, ins := range b.Instrs {
+			for _, op := range ins.Operands(nil) {
+				if op == nil || *op == nil {
+					continue
+				}
+				if c, ok := (*op).(*ssa.Const); ok && c.Value != nil {
+					switch c.Value.Kind().String() {
+					case "String":
+						if s, err := strconv.Unquote(c.Value.ExactString()); err == nil && len(s) <= 40 {
+							strs[s] = true
+						}
+					case "Int":
+						if n, ok := new(big.Int).SetString(c.Value.ExactString(), 10); ok {
+							ints[n.String()] = n
+						}
+					}
+				}
+			}
+			if call, ok := ins.(ssa.CallInstruction); ok && depth > 0 {
+				if cal := call.Common().StaticCallee(); cal != nil && cal.Pkg != nil && inRepo(cal.Pkg.Pkg) && cal != fn {
+					constantsOf(cal, depth-1, strs, ints)
+				}
+			}
+		}
+	}
+}
+
+func (cr *checkRun) searchReplay(o *Obligation, vc *VC) *replayResult {
+	fn := vc.targetFn
+	sig := fn.Signature
+	if cr.batches == nil {
+		cr.batches = map[*ssa.Function]*batchRun{}
+	}
+	br := cr.batches[fn]
+	pkgDir := filepath.Dir(cr.e.prog.Fset.Position(fn.Pos()).Filename)
+	callOf := func(lits []string) string {
+		if sig.Recv() != nil {
+			return "(" + lits[0] + ")." + fn.Name() + "(" + strings.Join(lits[1:], ", ") + ")"
+		}
+		return fn.Name() + "(" + strings.Join(lits, ", ") + ")"
+	}
+	if br == nil {
+		br = &batchRun{imports: map[string]string{}, budget: 45}
+		cr.batches[fn] = br
+		strs, ints := map[string]bool{}, map[string]*big.Int{}
+		constantsOf(fn, 2, strs, ints)
+		var es []string
+		for s := range strs {
+			es = append(es, s)
+		}
+		sort.Strings(es)
+		var ei []*big.Int
+		for _, n := range ints {
+			ei = append(ei, n, new(big.Int).Add(n, big.NewInt(1)), new(big.Int).Sub(n, big.NewInt(1)))
+		}
+		sort.Slice(ei, func(i, j int) bool { return ei[i].Cmp(ei[j]) < 0 })
+		var ptypes []types.Type
+		for _, p := range fn.Params {
+			ptypes = append(ptypes, p.Type())
+		}
+		br.tuples = genTuples(ptypes, fn.Pkg.Pkg, br.imports, es, ei, 200)
+		if len(br.tuples) == 0 {
+			br.err = fmt.Errorf("no inputs generated")
+		} else {
+			br.obs, _, br.err = runBatch(cr.e.repo, pkgDir, fn.Pkg.Pkg.Name(), br.imports, sig, callOf, br.tuples, "bounded input search for "+shortFn(fn))
+		}
+	}
+	if br.err != nil {
+		return &replayResult{Note: "bounded input search not run: " + br.err.Error()}
+	}
+	q, err := os.ReadFile(o.Query)
+	if err != nil {
+		return nil
+	}
+	query := string(q)
+	i := strings.LastIndex(query, "(assert (not ")
+	j := strings.LastIndex(query, "(check-sat)")
+	if i < 0 || j < i {
+		return nil
+	}
+	prefix := query[:i]
+	goalNeg := strings.TrimSpace(query[i:j])
+	goal := "(assert " + strings.TrimSuffix(strings.TrimPrefix(goalNeg, "(assert (not "), "))") + ")"
+	type cand struct {
+		idx  int
+		pins string
+	}
+	var cands []cand
+	var blocks []string
+	for ti, tu := range br.tuples {
+		var pins []string
+		for k, v := range tu {
+			pins = append(pins, v.pin(vc.paramVals[k].t))
+		}
+		_, panicked := br.obs[ti]["panic"]
+		if o.Kind == "safety" {
+			if !panicked {
+				continue
+			}
+			// the input must be one the function's precondition admits
+			cands = append(cands, cand{ti, strings.Join(pins, "\n")})
+			blocks = append(blocks, strings.Join(pins, "\n"))
+			continue
+		}
+		if panicked || len(vc.resultVals) != sig.Results().Len() {
+			continue
+		}
+		rp, complete := resultPins(sig, vc.resultVals, br.obs[ti])
+		if !complete {
+			continue
+		}
+		all := strings.Join(append(pins, rp...), "\n")
+		cands = append(cands, cand{ti, all})
+		blocks = append(blocks, all+"\n"+goal)
+	}
+	n := len(br.tuples)
+	if len(cands) == 0 {
+		return &replayResult{Note: fmt.Sprintf("bounded input search: none of %d generated inputs gives a comparable run", n)}
+	}
+	if br.budget < 3 {
+		return &replayResult{Note: "bounded input search: time budget of this function used up by earlier obligations"}
+	}
+	fast := dropQuantified(prefix)
+	t0 := time.Now()
+	defer func() { br.budget -= time.Since(t0).Seconds() }()
+	ans := multiCheckBudget(fast, blocks, 1, int(br.budget*0.7)+1)
+	mk := func(c cand, note string) *replayResult {
+		res := &replayResult{Ran: true, Confirmed: true, Note: note, Inputs: map[string]string{}, Observed: br.obs[c.idx]}
+		var lits []string
+		for k, v := range br.tuples[c.idx] {
+			res.Inputs[fn.Params[k].Name()] = v.goLit
+			lits = append(lits, v.goLit)
+		}
+		_, src, _ := "", "", 0
+		_ = src
+		lhs, record := recordStmts(sig)
+		assign := ""
+		if len(lhs) > 0 {
+			assign = strings.Join(lhs, ", ") + " := "
+		}
+		var imp []string
+		for path, alias := range br.imports {
+			imp = append(imp, fmt.Sprintf("\t%s %q", alias, path))
+		}
+		sort.Strings(imp)
+		res.Test = fmt.Sprintf("package %s\n\nimport (\n\t\"encoding/json\"\n\t\"fmt\"\n\t\"os\"\n\t\"testing\"\n%s\n)\n\n// generated by govc: failing input for %s found by bounded input search, replayed on the real code\nfunc TestGovcReplay(t *testing.T) {\n\tout := map[string]interface{}{}\n\tfunc() {\n\t\tdefer func() {\n\t\t\tif r := recover(); r != nil {\n\t\t\t\tout[\"panic\"] = fmt.Sprint(r)\n\t\t\t}\n\t\t}()\n\t\t%s%s\n\t\t%s\n\t}()\n\tb, _ := json.Marshal(out)\n\t_ = os.WriteFile(os.Getenv(\"GOVC_REPLAY_OUT\"), b, 0o644)\n\t_ = fmt.Sprint()\n}\n",
+			fn.Pkg.Pkg.Name(), strings.Join(imp, "\n"), o.Name, assign, callOf(lits), strings.Join(record, "\n\t\t"))
+		rel, _ := filepath.Rel(cr.e.repo, pkgDir)
+		res.Command = "cd " + cr.e.repo + " && GOFLAGS= go test -overlay <overlay placing the test source below into " + rel + "/> -vet=off -count=1 -timeout 60s -run '^TestGovcReplay$' ./" + rel + "/"
+		return res
+	}
+	if o.Kind == "safety" {
+		for k, c := range cands {
+			if ans[k] == "sat" {
+				return mk(c, fmt.Sprintf("the real function panics on an input its precondition admits (input found by bounded search over %d generated inputs; admissibility checked by z3-new)", n))
+			}
+		}
+		return &replayResult{Note: fmt.Sprintf("bounded input search: the real function panicked on none of the admissible inputs among %d generated", n)}
+	}
+	// post: contradiction candidates, then the sanity query (the observed run is one the conditions admit)
+	var second []cand
+	var sblocks []string
+	for k, c := range cands {
+		if ans[k] == "unsat" {
+			second = append(second, c)
+			sblocks = append(sblocks, c.pins)
+			if len(second) >= 12 {
+				break
+			}
+		}
+	}
+	if len(second) == 0 {
+		return &replayResult{Note: fmt.Sprintf("bounded input search: the real function's results contradict the clause on none of %d generated inputs", n)}
+	}
+	sans := multiCheckBudget(fast, sblocks, 2, 12)
+	for k, c := range second {
+		if sans[k] != "unsat" {
+			return mk(c, fmt.Sprintf("the results the real function returns contradict the clause (input found by bounded search over %d generated inputs after the solver gave no reproducing model; checked by z3-new with inputs and observed results pinned, and the observed run is one the verification conditions admit)", n))
+		}
+	}
+	return &replayResult{Note: fmt.Sprintf("bounded input search over %d inputs: candidates contradicted the clause only together with the verification conditions (ENGINE-MISMATCH suspected)", n)}
+}
